@@ -69,7 +69,11 @@ def main():
     # a conjunction of simple comparisons is one condition (2 paths, not 3)
     eng.contracts[S + "both_tests"] = dict(params={"a": "int", "lo": "int", "hi": "int"}, returns="int",
                                            ensures="result == (1 if lo <= a and a <= hi else 0)", modifies=[], file="selftest")
-    expect = {"global_bad": False, "drop_last": True, "both_tests": True, "bytes_vs_str": True, "default_bad": False, "chain_ok": True, "chain_bad": False, "append_ok": True, "append_bad": False, "count_ok": True, "count_bad": False, "mod_ok": True, "idx_bad": False, "tail_ok": True}
+    # str.strip family: a view whose cut-off parts lie in the character set
+    eng.contracts[S + "strip_ok"] = dict(params={"s": "str"}, returns="bool", ensures="result == True", modifies=[], file="selftest")
+    eng.contracts[S + "strip_bad"] = dict(params={"s": "str"}, requires="len(s) >= 1", returns="bool", ensures="result == True",
+                                          modifies=[], file="selftest")
+    expect = {"strip_ok": True, "strip_bad": False, "global_bad": False, "drop_last": True, "both_tests": True, "bytes_vs_str": True, "default_bad": False, "chain_ok": True, "chain_bad": False, "append_ok": True, "append_bad": False, "count_ok": True, "count_bad": False, "mod_ok": True, "idx_bad": False, "tail_ok": True}
     rc = 0
     for name, want in sorted(expect.items()):
         r = eng.verify(S + name)
